@@ -18,8 +18,32 @@ FLOATS = [0.5, -1.5, 2.0, 0.0, 1e-3, 3.25, -0.75, 10.0, 1.0]
 INTS = [-3, -1, 0, 1, 2, 3, 5, 7]
 
 
-def make_world(rng, layered=True, n_flat=None):
-    """Returns (world spec, locs) where locs = [dict(path, group, kind, layer)]."""
+HOSTILE_NAMES = {"x": "x']['y", "y": "ref_a", "z": "r", "u": 'x["r"]', "w": "a.b", "g": "f.sq(1)",
+                 "t1": "r", "t2": "ref_a", "t3": "it's", "t4": "r['t0']", "v3": "var", "v4": "a"}
+
+
+def make_world(rng, layered=True, n_flat=None, hostile=False):
+    """Returns (world spec, locs) where locs = [dict(path, group, kind, layer)].
+    hostile=True renames keys to text containing quotes, brackets, dots and container labels."""
+    world, locs = _make_world(rng, layered, n_flat)
+    if hostile:
+        def ren(x):
+            if isinstance(x, dict):
+                if set(x) == {"s"} and x["s"] in HOSTILE_NAMES:
+                    return {"s": HOSTILE_NAMES[x["s"]]}
+                return {k: ren(v) for k, v in x.items()}
+            if isinstance(x, list):
+                return [ren(v) for v in x]
+            return x
+        world = ren(world)
+        for l in locs:
+            l["path"] = ren(l["path"])
+            if l["kind"] == "key_s":
+                l["choices"] = [HOSTILE_NAMES[k] for k in "xyz"]
+    return world, locs
+
+
+def _make_world(rng, layered=True, n_flat=None):
     n_v = rng.randrange(3, 6)
     n_i = rng.randrange(2, 4)
     n_t = n_flat if n_flat is not None else rng.randrange(3, 8)
@@ -279,7 +303,8 @@ class HistoryGen:
             if not cands:
                 return None
             t = r.choice(cands)
-            return ["set", t["path"], ["v", enc(leaf_value(r, t["kind"]))]]
+            v = r.choice(t["choices"]) if "choices" in t else leaf_value(r, t["kind"])
+            return ["set", t["path"], ["v", enc(v)]]
         if kind == "val":
             t = r.choice([l for l in nonleaf if s.ckey(l["path"]) not in tt])
             return ["set", t["path"], ["v", enc(leaf_value(r, "float"))]]
